@@ -1149,6 +1149,214 @@ theorem close_step_inv (e : Engine M) (sym i tf : Nat) (cs' rows' : List Candle)
     refine ⟨hs, hshort, inv_of_pre_forming tf rows' _ htf hb' hpre, ?_, ?_, ?_⟩
     all_goals first | trivial | (intros; trivial) | (intros; rfl) | (intro h; exact h)
 
+/-- the CLOSE WINDOW loop of an iteration (over any list of the symbol's timeframes, repetitions allowed) -/
+theorem close_fold_inv (sym i : Nat) (cs' rows' : List Candle) (t0 : Int) (ht0 : 0 < t0) (T : List Nat)
+    (hT : ∀ m ∈ T, 0 < m ∧ m ≠ 1) (hlen : rows'.length = i + 1) (hcs : cs'.take (i + 1) = rows') (hsp : Spaced t0 rows')
+    (L : List Nat) (hL : ∀ m ∈ L, m ∈ T) :
+    ∀ (e : Engine M) (D : List Nat), sym < e.stores.length → (storeOf e sym).short = rows' →
+      (∀ m ∈ T, PreInv m rows' (longOf (storeOf e sym) m)) → (∀ m ∈ D, StoreInv m rows' (longOf (storeOf e sym) m)) →
+      sym < (L.foldl (fun (e : Engine M) (tf : Nat) =>
+          if (i + 1) % tf = 0 then
+            match generateCandle tf (Py.slice cs' (some ((i : Int) - ((tf : Int) - 1))) (some ((i : Int) + 1))) False with
+            | .ok g => addCandle e sym tf g
+            | .error k => fail e k
+          else e) e).stores.length ∧
+      (storeOf (L.foldl (fun (e : Engine M) (tf : Nat) =>
+          if (i + 1) % tf = 0 then
+            match generateCandle tf (Py.slice cs' (some ((i : Int) - ((tf : Int) - 1))) (some ((i : Int) + 1))) False with
+            | .ok g => addCandle e sym tf g
+            | .error k => fail e k
+          else e) e) sym).short = rows' ∧
+      (∀ m ∈ D ++ L, StoreInv m rows' (longOf (storeOf (L.foldl (fun (e : Engine M) (tf : Nat) =>
+          if (i + 1) % tf = 0 then
+            match generateCandle tf (Py.slice cs' (some ((i : Int) - ((tf : Int) - 1))) (some ((i : Int) + 1))) False with
+            | .ok g => addCandle e sym tf g
+            | .error k => fail e k
+          else e) e) sym) m)) ∧
+      (L.foldl (fun (e : Engine M) (tf : Nat) =>
+          if (i + 1) % tf = 0 then
+            match generateCandle tf (Py.slice cs' (some ((i : Int) - ((tf : Int) - 1))) (some ((i : Int) + 1))) False with
+            | .ok g => addCandle e sym tf g
+            | .error k => fail e k
+          else e) e).cfg = e.cfg ∧
+      (e.err.isSome → (L.foldl (fun (e : Engine M) (tf : Nat) =>
+          if (i + 1) % tf = 0 then
+            match generateCandle tf (Py.slice cs' (some ((i : Int) - ((tf : Int) - 1))) (some ((i : Int) + 1))) False with
+            | .ok g => addCandle e sym tf g
+            | .error k => fail e k
+          else e) e).err.isSome) := by
+  induction L with
+  | nil => intro e D hs hsh _ hD; exact ⟨hs, hsh, by simpa using hD, rfl, fun h => h⟩
+  | cons m rest ih =>
+    intro e D hs hsh hpre hD
+    have hmT : m ∈ T := hL m List.mem_cons_self
+    obtain ⟨hm, hm1⟩ := hT m hmT
+    have hne : rows' ≠ [] := by intro h; rw [h] at hlen; simp at hlen
+    obtain ⟨s1, s2, s3, s4, s5, s6⟩ := close_step_inv e sym i m cs' rows' t0 hs hm hm1 ht0 hsh hlen hcs hsp (hpre m hmT)
+    simp only [List.foldl_cons]
+    revert s1 s2 s3 s4 s5 s6
+    generalize (if (i + 1) % m = 0 then
+        match generateCandle m (Py.slice cs' (some ((i : Int) - ((m : Int) - 1))) (some ((i : Int) + 1))) False with
+        | .ok g => addCandle e sym m g
+        | .error k => fail e k
+      else e) = e1
+    intro s1 s2 s3 s4 s5 s6
+    have hpre' : ∀ m' ∈ T, PreInv m' rows' (longOf (storeOf e1 sym) m') := by
+      intro m' hm'
+      by_cases h : m' = m
+      · subst h; exact pre_of_inv m' rows' _ (hT m' hm').1 hne s3
+      · rw [s4 m' h]; exact hpre m' hm'
+    have hD' : ∀ m' ∈ D ++ [m], StoreInv m' rows' (longOf (storeOf e1 sym) m') := by
+      intro m' hm'
+      by_cases h : m' = m
+      · subst h; exact s3
+      · rw [s4 m' h]
+        rcases List.mem_append.mp hm' with h1 | h1
+        · exact hD m' h1
+        · exact absurd (List.mem_singleton.mp h1) h
+    obtain ⟨r1, r2, r3, r4, r5⟩ := ih (fun x hx => hL x (List.mem_cons_of_mem _ hx)) e1 (D ++ [m]) s1 s2 hpre' hD'
+    refine ⟨r1, r2, ?_, by rw [r4, s5], fun h => r5 (s6 h)⟩
+    intro m' hm'
+    apply r3 m'
+    simp only [List.mem_append, List.mem_cons, List.mem_singleton, List.not_mem_nil, or_false] at hm' ⊢
+    rcases hm' with h | h | h
+    · exact Or.inl (Or.inl h)
+    · exact Or.inl (Or.inr h)
+    · exact Or.inr h
+
+theorem mem_eraseDups_nat (l : List Nat) (m : Nat) : m ∈ l.eraseDups ↔ m ∈ l := by
+  induction hn : l.length using Nat.strong_induction_on generalizing l with
+  | _ n ih =>
+    cases l with
+    | nil => simp
+    | cons a as =>
+      rw [List.eraseDups_cons]
+      generalize hf : List.filter _ as = fl
+      have hlen : fl.length < n := by
+        rw [← hn, ← hf]; simp only [List.length_cons]
+        exact Nat.lt_succ_of_le (List.length_filter_le _ _)
+      have hmem : m ∈ fl ↔ m ∈ as ∧ m ≠ a := by
+        rw [← hf, List.mem_filter]; simp
+      rw [List.mem_cons, ih _ hlen fl rfl, hmem, List.mem_cons]
+      constructor
+      · rintro (h | ⟨h, _⟩)
+        · exact Or.inl h
+        · exact Or.inr h
+      · rintro (h | h)
+        · exact Or.inl h
+        · by_cases hma : m = a
+          · exact Or.inl hma
+          · exact Or.inr ⟨h, hma⟩
+
+/-- the CLOSE WINDOW loop keeps an error flag that is already set -/
+theorem close_fold_err (sym i : Nat) (cs' : List Candle) (L : List Nat) (e : Engine M) (h : e.err.isSome) :
+    (L.foldl (fun (e : Engine M) (tf : Nat) =>
+        if (i + 1) % tf = 0 then
+          match generateCandle tf (Py.slice cs' (some ((i : Int) - ((tf : Int) - 1))) (some ((i : Int) + 1))) False with
+          | .ok g => addCandle e sym tf g
+          | .error k => fail e k
+        else e) e).err.isSome := by
+  induction L generalizing e with
+  | nil => exact h
+  | cons m rest ih =>
+    simp only [List.foldl_cons]
+    apply ih
+    split
+    · split
+      · exact h
+      · unfold fail; rw [if_pos h]; exact h
+    · exact h
+
+/-- ONE ITERATION OF THE NORMAL SIMULATOR FOR ONE SYMBOL, every strategy: if before the iteration the symbol's store holds
+    the first `i` (normalised) input rows and satisfies `StoreInv` for every bigger timeframe, then after it — NEW MINUTE,
+    any number of fills with their hooks, the liquidation check, CLOSE WINDOW — it holds the first `i + 1` rows and
+    satisfies `StoreInv` again, unless the run was stopped by an error. -/
+theorem symStep_inv (fuel i : Nat) (e : Engine M) (inputs : List (List Candle)) (sym : Nat) (t0 : Int)
+    (hal : AlignedCfg e.cfg sym t0)
+    (hin : ∀ j (h : j < (inputs.getD sym []).length), (inputs.getD sym [])[j].ts = t0 + 60000 * (j : Int))
+    (hil : i < (inputs.getD sym []).length)
+    (hi : EInv e sym t0 ((inputs.getD sym []).take i)) :
+    (symStep u fuel i (e, inputs) sym).1.err.isSome ∨
+    (EInv (symStep u fuel i (e, inputs) sym).1 sym t0 (((symStep u fuel i (e, inputs) sym).2.getD sym []).take (i + 1)) ∧
+     (symStep u fuel i (e, inputs) sym).1.cfg = e.cfg ∧
+     ((symStep u fuel i (e, inputs) sym).2.getD sym []).length = (inputs.getD sym []).length ∧
+     ∀ j (h : j < ((symStep u fuel i (e, inputs) sym).2.getD sym []).length),
+       ((symStep u fuel i (e, inputs) sym).2.getD sym [])[j].ts = t0 + 60000 * (j : Int)) := by
+  unfold symStep
+  dsimp only
+  split
+  · left; assumption
+  · generalize hcs : inputs.getD sym [] = cs at *
+    -- the row of this iteration, normalised
+    have hrow : ∃ c, fixedRow cs i = some c ∧ c.ts = t0 + 60000 * (i : Int) := by
+      unfold fixedRow
+      rw [List.getElem?_eq_getElem hil]
+      dsimp only
+      by_cases h0 : i = 0
+      · exact ⟨cs[i], by simp [h0], hin i hil⟩
+      · simp only [h0, if_false]
+        have hlt : i - 1 < cs.length := by omega
+        rw [List.getElem?_eq_getElem hlt]
+        refine ⟨_, rfl, ?_⟩
+        rcases fix_jump_spec cs[i - 1] cs[i] with h | h
+        · rw [h.1]; exact hin i hil
+        · rw [h.2]; exact hin i hil
+    obtain ⟨c, hfr, hcts⟩ := hrow
+    rw [hfr]
+    dsimp only
+    -- the input array of the symbol after the normalisation of row i
+    have hsyml : sym < inputs.length := by
+      by_contra hge
+      have : inputs.getD sym [] = [] := by
+        rw [List.getD_eq_getElem?_getD, List.getElem?_eq_none (by omega)]; rfl
+      rw [hcs] at this; rw [this] at hil; simp at hil
+    have hget : (inputs.set sym (cs.set i c)).getD sym [] = cs.set i c := by
+      rw [List.getD_eq_getElem?_getD, List.getElem?_set_self (by omega)]; rfl
+    simp only [hget]
+    have htake : (cs.set i c).take (i + 1) = cs.take i ++ [c] := by
+      rw [List.take_succ_eq_append_getElem (by simpa using hil), List.take_set_of_le (le_refl i), List.getElem_set_self]
+    have hlen1 : (cs.take i).length = i := by rw [List.length_take]; omega
+    -- NEW MINUTE, the minute
+    have hp1 := new_minute_gives_pre e sym c t0 (cs.take i) hal hi (by rw [hlen1]; exact hcts)
+    have hal1 : AlignedCfg (addCandle e sym 1 c).cfg sym t0 := hal
+    obtain ⟨hp2, hcfg2⟩ := simulateMinute_keeps_pre u fuel (addCandle e sym 1 c) sym c t0 (cs.take i) hal1 hp1
+    have hsh := simulateMinute_short u fuel (addCandle e sym 1 c) sym c t0 (cs.take i) hal1 hp1
+    have hcfg2' : (simulateMinute u fuel (addCandle e sym 1 c) sym c).cfg = e.cfg := hcfg2
+    revert hp2 hsh hcfg2'
+    generalize simulateMinute u fuel (addCandle e sym 1 c) sym c = e2
+    intro hp2 hsh hcfg2'
+    rcases hsh with hshort | herr
+    · right
+      have hT : ∀ m ∈ tfsRaw e.cfg sym, 0 < m ∧ m ≠ 1 := by
+        intro m hm
+        refine ⟨(hal.2 m hm).1, ?_⟩
+        unfold tfsRaw at hm
+        obtain ⟨r, hr, rfl⟩ := List.mem_map.mp hm
+        have := (List.mem_filter.mp hr).2
+        simp only [decide_eq_true_eq] at this
+        exact this.2
+      have hsp' : Spaced t0 (cs.take i ++ [c]) := by rw [← hshort]; exact hp2.spaced
+      have hpre' : ∀ m ∈ tfsRaw e.cfg sym, PreInv m (cs.take i ++ [c]) (longOf (storeOf e2 sym) m) := by
+        intro m hm; rw [← hshort]; exact hp2.pre m (by rw [hcfg2']; exact hm)
+      have hL : ∀ m ∈ tfsOf e.cfg sym, m ∈ tfsRaw e.cfg sym := by
+        intro m hm; exact (mem_eraseDups_nat _ m).mp hm
+      obtain ⟨r1, r2, r3, r4, _⟩ := close_fold_inv sym i (cs.set i c) (cs.take i ++ [c]) t0 hal.1 (tfsRaw e.cfg sym) hT
+        (by simp [hlen1]) htake hsp' (tfsOf e.cfg sym) hL e2 [] hp2.hs hshort hpre' (by intro m hm; cases hm)
+      have hcfg3 := r4.trans hcfg2'
+      refine ⟨⟨r1, by rw [htake]; exact r2, by rw [htake]; exact hsp', ?_⟩, hcfg3, by simp, ?_⟩
+      · intro m hm
+        rw [htake]
+        have hm' : m ∈ tfsRaw e.cfg sym := by
+          have := congrArg (fun c => tfsRaw c sym) hcfg3
+          rw [← this]; exact hm
+        exact r3 m (by rw [List.nil_append]; exact (mem_eraseDups_nat _ m).mpr hm')
+      · intro j hj
+        have hj' : j < cs.length := by simpa using hj
+        by_cases hji : j = i
+        · subst hji; simp [hcts]
+        · rw [List.getElem_set_ne (by omega)]; exact hin j hj'
+    · left; exact close_fold_err sym i _ _ e2 herr
+
 end run
 
 end C07
